@@ -79,21 +79,48 @@ def do_import(prop, letter, src, sid):
         sh('git -C /repo worktree remove --force %s' % wt)
 
 
-def do_run(sid, tier='quick', extra_env=None):
+def do_run(sid, tier='quick', extra_env=None, in_repo=False):
+    """in_repo=True: apply to /repo itself and undo afterwards (as the
+    brief describes).  Default: a scratch worktree of /repo's HEAD with the
+    change applied, put first on PYTHONPATH -- the checks import pgradd from
+    wherever it resolves -- so that /repo stays untouched while background
+    runs are using it."""
     dst = os.path.join(HERE, 'seeded', sid)
     meta = json.load(open(os.path.join(dst, 'meta.json')))
     prop = meta['property']
-    rc, out = sh('git -C /repo diff --quiet')
-    assert rc == 0, '/repo is dirty'
-    rc, out = sh('git -C /repo apply %s' % os.path.join(dst, 'patch.diff'))
-    assert rc == 0, out
+    patch = os.path.join(dst, 'patch.diff')
     t0 = time.time()
-    try:
-        rc, out = sh('timeout 3000 %s %s/run_check.py %s --tier %s 2>&1 '
-                     '| grep -v "^here"' % (PY, HERE, prop, tier),
-                     cwd=HERE, env=extra_env, timeout=3200)
-    finally:
-        sh('git -C /repo checkout -- .')
+    if in_repo:
+        rc, out = sh('git -C /repo diff --quiet')
+        assert rc == 0, '/repo is dirty'
+        rc, out = sh('git -C /repo apply %s' % patch)
+        if rc != 0:
+            print('==> %s: patch no longer applies: %s' % (sid, out[-300:]))
+            return 4
+        try:
+            rc, out = sh('timeout 3000 %s %s/run_check.py %s --tier %s 2>&1 '
+                         '| grep -v "^here"' % (PY, HERE, prop, tier),
+                         cwd=HERE, env=extra_env, timeout=3200)
+        finally:
+            sh('git -C /repo checkout -- .')
+    else:
+        wt = '/tmp/seedrun-%s' % sid
+        sh('git -C /repo worktree remove --force %s' % wt)
+        rc, out = sh('git -C /repo worktree add --detach %s HEAD -q' % wt)
+        assert rc == 0, out
+        try:
+            rc, out = sh('git apply %s' % patch, cwd=wt)
+            if rc != 0:
+                print('==> %s: patch no longer applies: %s'
+                      % (sid, out[-300:]))
+                return 4
+            env = dict(extra_env or {})
+            env['PYTHONPATH'] = wt
+            rc, out = sh('timeout 3000 %s %s/run_check.py %s --tier %s 2>&1 '
+                         '| grep -v "^here"' % (PY, HERE, prop, tier),
+                         cwd=HERE, env=env, timeout=3200)
+        finally:
+            sh('git -C /repo worktree remove --force %s' % wt)
     lines = [l for l in out.splitlines()
              if l.startswith(('VIOLATION', '  signature', 'KNOWN', 'HARNESS'))
              or 'done in' in l]
@@ -116,4 +143,10 @@ if __name__ == '__main__':
     if sys.argv[1] == 'import':
         sys.exit(do_import(*sys.argv[2:6]))
     if sys.argv[1] == 'run':
-        sys.exit(do_run(sys.argv[2], *(sys.argv[3:4])))
+        sys.exit(do_run(sys.argv[2], *(sys.argv[3:4]),
+                        in_repo='--in-repo' in sys.argv))
+    if sys.argv[1] == 'all':
+        rcs = {}
+        for sid in sorted(os.listdir(os.path.join(HERE, 'seeded'))):
+            rcs[sid] = do_run(sid)
+        print(json.dumps(rcs, indent=1))
